@@ -193,6 +193,8 @@ def _known(fa, t, at, facts, sig=None):
     """Three-valued reading of the test `t` (at node `at`) under the branch facts {literal text: (polarity, sig)}
     established earlier on the walk; a fact counts only when the names of its test were bound by the same definitions
     as they are here.  True / False / None (not decided by the facts)."""
+    if isinstance(t, ast.Constant):
+        return bool(t.value)
     sig = _sig(fa, t, at) if sig is None else sig
     t = _opened(fa, t, at)
     if isinstance(t, ast.UnaryOp) and isinstance(t.op, ast.Not):
@@ -225,22 +227,129 @@ def _facts_of(fa, t, at, positive, sig=None):
     return [(text, pol, sig)]
 
 
+def record_fields_of(repo, module, name, _depth=0):
+    """Field names, in constructor order, of the record type the module knows as `name`: a NamedTuple / dataclass /
+    plain-constructor class (see c15._record_fields), `name = NamedTuple("X", [("a", T), ...])`, `namedtuple("X", ...)`,
+    or one of these imported from another module of the package.  None when `name` is not such a type."""
+    from .c15 import _record_fields
+    if _depth > 3 or module is None:
+        return None
+    cls = module.classes.get(name)
+    if cls is not None:
+        f = _record_fields(cls)
+        if not f or any(pos is None for (pos, _n) in f.values()):
+            return None
+        out = sorted(f, key=lambda k: f[k][0])
+        return out if [f[k][0] for k in out] == list(range(len(out))) else None
+    v = module.assigns.get(name)
+    if isinstance(v, ast.Call) and A.call_attr(v) in ("NamedTuple", "namedtuple") and len(v.args) == 2 and not v.keywords:
+        spec = v.args[1]
+        if isinstance(spec, ast.Constant) and isinstance(spec.value, str):
+            return spec.value.replace(",", " ").split()
+        if isinstance(spec, (ast.List, ast.Tuple)):
+            out = []
+            for x in spec.elts:
+                if isinstance(x, ast.Tuple) and x.elts:
+                    x = x.elts[0]
+                if not (isinstance(x, ast.Constant) and isinstance(x.value, str)):
+                    return None
+                out.append(x.value)
+            return out
+        return None
+    org = module.imports.get(name)
+    if org and ":" in org:
+        mod, nm = org.split(":", 1)
+        return record_fields_of(repo, repo.modules.get(mod.lstrip(".").split(".")[-1]), nm, _depth + 1)
+    return None
+
+
+def constant_fields(fa, call):
+    """{field: constant} for a record built in place with constants in some fields (`Result(value=None, ok=False)`)."""
+    if not (isinstance(call, ast.Call) and isinstance(call.func, ast.Name)) or any(isinstance(a, ast.Starred) for a in call.args) \
+            or any(k.arg is None for k in call.keywords):
+        return {}
+    names = record_fields_of(fa.ck.repo, fa.fi.module, call.func.id)
+    if not names or len(call.args) > len(names):
+        return {}
+    got = dict(zip(names, call.args))
+    got.update({k.arg: k.value for k in call.keywords if k.arg in names})
+    return {f: v.value for f, v in got.items() if isinstance(v, ast.Constant)}
+
+
+class _Bound:
+    """What a walk knows about plain locals from the bindings it passed: `x = y` (x is y until either is bound
+    again), `x = Record(..., ok=False)` (the constant fields of the record x holds)."""
+
+    def __init__(self, fa):
+        self.fa = fa
+        self._consts = {}
+
+    def after(self, n, binds):
+        ds = self.fa.df.gen.get(n, [])
+        if not ds:
+            return binds
+        cur = {k: v for (k, *v) in binds}
+        new = dict(cur)
+        for d in ds:
+            new.pop(d.name, None)
+            for k in [k for k, v in new.items() if v[0] == "alias" and v[1] == d.name]:
+                new.pop(k)
+        for d in ds:
+            if d.kind != "assign" or d.value is None or len(ds) != 1:
+                continue
+            v = d.value
+            if isinstance(v, ast.Name) and v.id != d.name:
+                new[d.name] = cur.get(v.id) or ["alias", v.id]
+            elif isinstance(v, ast.Call):
+                if id(v) not in self._consts:
+                    self._consts[id(v)] = constant_fields(self.fa, v)
+                if self._consts[id(v)]:
+                    new[d.name] = ["record", id(v)]
+        return frozenset((k, v[0], v[1]) for k, v in new.items())
+
+    def resolve(self, t, binds):
+        """The test `t` with what the walk knows about its locals written in."""
+        if not binds:
+            return t
+        cur = {k: (kind, x) for (k, kind, x) in binds}
+        if not any(isinstance(n, ast.Name) and n.id in cur for n in ast.walk(t)):
+            return t
+        consts = self._consts
+
+        class T(ast.NodeTransformer):
+            def visit_Attribute(self, n):
+                if isinstance(n.ctx, ast.Load) and isinstance(n.value, ast.Name) and cur.get(n.value.id, ("", 0))[0] == "record" \
+                        and n.attr in consts[cur[n.value.id][1]]:
+                    return ast.copy_location(ast.Constant(value=consts[cur[n.value.id][1]][n.attr]), n)
+                self.generic_visit(n)
+                return n
+
+            def visit_Name(self, n):
+                if isinstance(n.ctx, ast.Load) and cur.get(n.id, ("", 0))[0] == "alias":
+                    return ast.copy_location(ast.Name(id=cur[n.id][1], ctx=ast.Load()), n)
+                return n
+        import copy
+        return ast.fix_missing_locations(T().visit(copy.deepcopy(t)))
+
+
 def consistent_walk(fa, targets, via=None, avoid=(), cap=60000):
     """A walk entry -> (one of `via`, when given) -> one of `targets` that never passes `avoid` and on which no branch
     is taken against what an earlier branch of the same walk established (`if v: A` ... `if v and w: B`: B only after
-    A's branch).  Facts are forgotten at loop heads.  Returns the list of node ids, [] when there is none, or None when
+    A's branch; `r = probe() ... if r.ok: A ... s = r ... if s.ok: B` likewise, and `s = Result(ok=False)` decides
+    `if s.ok`).  Facts are forgotten at loop heads.  Returns the list of node ids, [] when there is none, or None when
     the search was cut off (callers then decide on plain reachability)."""
     cfg = fa.cfg
     targets, avoid = set(targets), set(avoid)
     via = set(via) if via is not None else None
-    start = (cfg.entry, via is None, frozenset())
+    bound = _Bound(fa)
+    start = (cfg.entry, via is None, frozenset(), frozenset())
     prev = {start: None}
     stack = [start]
     while stack:
         if len(prev) > cap:
             return None
         state = stack.pop()
-        n, after, lits = state
+        n, after, lits, binds = state
         if n in avoid:
             continue
         if after and n in targets:
@@ -253,18 +362,20 @@ def consistent_walk(fa, targets, via=None, avoid=(), cap=60000):
             after = True
         nd = cfg.node(n)
         loop_head = nd.kind == "for" or (nd.kind == "test" and isinstance(fa.pm.get(nd.ast), ast.While))
+        binds2 = bound.after(n, binds)
         for (d, l) in cfg.succ[n]:
             new = lits
             if loop_head:
                 new = frozenset()
             elif nd.kind == "test" and nd.ast is not None and l in ("T", "F"):
+                test = bound.resolve(nd.ast, binds2)
                 facts = {t: (pol, g) for (t, pol, g) in lits}
-                if _known(fa, nd.ast, n, facts) is (l != "T"):
+                if _known(fa, test, n, facts) is (l != "T"):
                     continue
-                for (t, pol, g) in _facts_of(fa, nd.ast, n, l == "T"):
+                for (t, pol, g) in _facts_of(fa, test, n, l == "T"):
                     facts[t] = (pol, g)
                 new = frozenset((t, pol, g) for (t, (pol, g)) in facts.items())
-            nxt = (d, after, new)
+            nxt = (d, after, new, binds2)
             if nxt not in prev:
                 prev[nxt] = state
                 stack.append(nxt)
@@ -286,26 +397,45 @@ def _compute_nodes(rl):
     return out
 
 
+def field_stores(fa):
+    """[(statement, target expression, [(value expression, node)] or None)] for every store into an attribute made by
+    an assignment of the function: `x.f = v`, and `x.f, y = v, w` / `x.f, y = pair` with `pair` a tuple display bound
+    earlier (each target then receives its own component; None when the component cannot be told)."""
+    out = []
+    for st in fa.stmts(ast.Assign):
+        if not fa.nodes(st):
+            continue
+        at = fa.nodes(st)[0]
+        for t in st.targets:
+            if isinstance(t, ast.Attribute):
+                out.append((st, t, [(st.value, at)]))
+            elif isinstance(t, (ast.Tuple, ast.List)) and any(isinstance(x, ast.Attribute) for x in t.elts):
+                lv = [(x, n) for (x, n) in origins(fa, st.value, at) if not A.is_none(x)]     # unpacking None raises
+                whole = bool(lv) and all(isinstance(x, (ast.Tuple, ast.List)) and len(x.elts) == len(t.elts)
+                                         and not any(isinstance(y, ast.Starred) for y in x.elts) for (x, _n) in lv) \
+                    and not any(isinstance(y, ast.Starred) for y in t.elts)
+                for i, x in enumerate(t.elts):
+                    if isinstance(x, ast.Attribute):
+                        out.append((st, x, [(v.elts[i], n) for (v, n) in lv] if whole else None))
+    return out
+
+
 def _adoptions(rl, pushed):
     """Assignments after which the pushed frame's memento is, or shares state with, something that was not built for
     this invocation: `<frame>.memento = <anything but a freshly constructed Memento>`, or a store into a part of
     `<frame>.memento` of a value read from the store's answer."""
     me = pushed + ".memento"
     out = []
-    for st in rl.stmts(ast.Assign):
-        if not rl.nodes(st):
-            continue
+    for (st, t, vals) in field_stores(rl):
         at = rl.nodes(st)[0]
-        for t in st.targets:
-            if not isinstance(t, ast.Attribute):
-                continue
-            tt = rl.xnorm(t, at)
-            if tt == me:
-                lv = origins(rl, st.value, at)
-                fresh = bool(lv) and all(isinstance(x, ast.Call) and isinstance(x.func, ast.Name) and x.func.id == "Memento" for (x, _n) in lv)
-                if not fresh:
-                    out.append(st)
-            elif tt.startswith(me + ".") and any(d.startswith("call:get_memento") for d in rl.deps(st.value, at)):
+        tt = rl.xnorm(t, at)
+        if tt == me:
+            lv = [o for (v, n) in vals or [] for o in origins(rl, v, n)]
+            fresh = bool(lv) and all(isinstance(x, ast.Call) and isinstance(x.func, ast.Name) and x.func.id == "Memento" for (x, _n) in lv)
+            if not fresh and st not in out:
+                out.append(st)
+        elif tt.startswith(me + ".") and (vals is None or any(d.startswith("call:get_memento") for (v, n) in vals for d in rl.deps(v, n))):
+            if st not in out:
                 out.append(st)
     return out
 
@@ -313,7 +443,11 @@ def _adoptions(rl, pushed):
 def _frame_memento_stores(rl, pushed):
     """Assignments to `<pushed frame>.memento`."""
     me = pushed + ".memento"
-    return [st for st in rl.stmts(ast.Assign) if rl.nodes(st) and any(isinstance(t, ast.Attribute) and rl.xnorm(t, rl.nodes(st)[0]) == me for t in st.targets)]
+    out = []
+    for (st, t, _vals) in field_stores(rl):
+        if rl.xnorm(t, rl.nodes(st)[0]) == me and st not in out:
+            out.append(st)
+    return out
 
 
 def _escapes(fa, starts, sites, extra_removed, edge_ok, targets, include_start=True):
@@ -775,8 +909,11 @@ def _r1_run_local(ck, R1):
     def stored(e, at):
         lv = origins(rl, e, at)
         return bool(lv) and all(isinstance(x, ast.Call) and A.call_attr(x) == "get_memento" and A.norm(A.call_recv(x)) == "storage_backend" for (x, _n) in lv)
-    asg = [s for s in rl.stmts(ast.Assign) if rl.nodes(s) and any(isinstance(t, ast.Attribute) and rl.xnorm(t, rl.nodes(s)[0]) == PUSHED + ".memento" for t in s.targets)
-           and stored(s.value, rl.nodes(s)[0]) and (sc.with_stmt is None or rl.inside(s, sc.with_stmt))]
+    asg = []
+    for (st, t, vals) in field_stores(rl):
+        if rl.xnorm(t, rl.nodes(st)[0]) == PUSHED + ".memento" and vals and all(stored(v, n) for (v, n) in vals) \
+                and (sc.with_stmt is None or rl.inside(st, sc.with_stmt)) and st not in asg:
+            asg.append(st)
     an = rl.nodes_all(asg)
     for r in served:
         # where the served value is committed: the return itself, or the binding of the local that is returned later
